@@ -1,145 +1,139 @@
 (* The update log of Model/Engine.v (every execution of a node's update closure, newest first):
-   for the repaired algorithm, on every ranked graph, every rule, every queue order and every
-   order of the dependents lists, a drain runs the update of a node
-     - at most once                                    (NoDup),
-     - exactly when one of its dependencies changed     (iff),
-     - after the updates of all its dependencies       (Ordered / Settled).
+   for the repaired algorithm, on every ranked graph, every rule, every demand function, every queue
+   order and every order of the dependents lists, a drain runs the update of a node
+     - at most once                                                          (NoDup),
+     - exactly when one of its static dependencies or demanded nodes changed (iff),
+     - after the updates of all its static dependencies and demanded nodes   (Ordered / Settled).
    The proofs re-use EngineSafe.update_node_safe as a black box for the graph invariants and add the
    log invariant LogOK on top of it. *)
 From Coq Require Import List Arith Lia Bool.
 Import ListNotations.
 From Sodium Require Import Engine EngineScript EngineSafe EngineFuel.
 
-Lemma existsb_ext_in {A} (f h : A -> bool) l : (forall x, In x l -> f x = h x) -> existsb f l = existsb h l.
-Proof.
-  induction l as [|x l IH]; simpl; intros H; auto.
-  rewrite (H x (or_introl eq_refl)), IH; auto.
-Qed.
-
 (* one-step unfolding of update_node around the part that ends with the node marked done *)
-Definition un_body {Val} (F : rule Val) (orig : bool) (f : nat) (s : st Val) (n : nat) : option (st Val) :=
+Definition un_body {Val} (F : rule Val) (Dm : demand Val) (orig : bool) (f : nat) (s : st Val) (n : nat) : option (st Val) :=
   let s1 := mark s n true false in
   let ds := deps (get (g s) n) in
   match fold_left (fun acc d => match acc with None => None | Some a =>
-                      if visited (get (g a) d) then Some a else update_node F orig f a d true end) ds (Some s1) with
+                      if visited (get (g a) d) then Some a else update_node F Dm orig f a d true end) ds (Some s1) with
   | None => None
   | Some s2 =>
-    let s3 := if existsb (fun d => changed (get (g s2) d)) ds then run_update F s2 n else s2 in
-    Some (mark s3 n true true)
+    let ex := Dm n (fires_of (g s2) ds) in
+    match fold_left (fun acc d => match acc with None => None | Some a =>
+                        if visited (get (g a) d) then Some a else update_node F Dm orig f a d true end) ex (Some s2) with
+    | None => None
+    | Some s2' =>
+      let s3 := if existsb (fun d => changed (get (g s2') d)) (ds ++ ex) then run_update F s2' n ex else s2' in
+      Some (mark s3 n true true)
+    end
   end.
 
-Lemma update_node_unfold {Val} (F : rule Val) orig f s n b :
-  update_node F orig (S f) s n b =
+Lemma update_node_unfold {Val} (F : rule Val) (Dm : demand Val) orig f s n b :
+  update_node F Dm orig (S f) s n b =
   if visited (get (g s) n) then Some s else
-  match un_body F orig f s n with
+  match un_body F Dm orig f s n with
   | None => None
   | Some s4 =>
     if changed (get (g s4) n) then
       if b && negb orig then Some {| g := g s4; queue := queue s4 ++ dependents (get (g s4) n); log := log s4 |}
-      else fold_left (fun acc m => match acc with None => None | Some a => update_node F orig f a m false end)
+      else fold_left (fun acc m => match acc with None => None | Some a => update_node F Dm orig f a m false end)
                      (dependents (get (g s4) n)) (Some s4)
     else Some s4
   end.
 Proof.
   unfold un_body. cbn [update_node]. destruct (visited (get (g s) n)); [reflexivity|].
-  cbv zeta. destruct (fold_left _ _ _); reflexivity.
+  cbv zeta. destruct (fold_left _ (deps (get (g s) n)) _) as [s2|]; [|reflexivity].
+  destruct (fold_left _ (Dm n (fires_of (g s2) (deps (get (g s) n)))) _); reflexivity.
 Qed.
 
 Section Log.
   Context {Val : Type}.
   Variable F : rule Val.
-  Variables D Dts : nat -> list nat.
+  Variable Dm : demand Val.
+  Variables D Dem Dts : nat -> list nat.
   Variable rank : nat -> nat.
   Variable N : nat.
-  Hypothesis rank_ok : forall n d, In d (D n) -> rank d < rank n.
+  Variable den : nat -> option Val.
+  Hypothesis rank_ok : forall n d, In d (D n ++ Dem n) -> rank d < rank n.
   Hypothesis D_range : forall n d, In d (D n) -> d < N.
+  Hypothesis Dem_range : forall n d, In d (Dem n) -> d < N.
   Hypothesis Dts_range : forall n d, In d (Dts n) -> d < N.
+  Hypothesis den_eq : forall n, n < N -> D n <> [] ->
+    den n = (if existsb is_some (map den (D n ++ Dm n (map den (D n))))
+             then F n (map den (D n)) (map den (Dm n (map den (D n)))) else None).
+  Hypothesis Dm_den : forall n, n < N -> incl (Dm n (map den (D n))) (Dem n).
+  Hypothesis Dm_quiet : forall n ins, existsb is_some ins = false -> Dm n ins = [].
 
   Local Notation Shape := (shape D Dts N).
-  Local Notation Inv := (I F D N).
+  Local Notation Inv := (I F Dm D N).
   Local Notation Ext := (ext D Dts N).
   Local Notation Pre := (pre rank N).
-  Local Notation Safe := (update_node_safe F D Dts rank N rank_ok D_range Dts_range).
+  Local Notation Src := (SrcOK D N den).
+  Local Notation Inp := (inp Dm D).
+  Local Notation Exs := (exs_of Dm D).
+  Local Notation Safe := (update_node_safe F Dm D Dem Dts rank N den rank_ok D_range Dem_range Dts_range den_eq Dm_den Dm_quiet).
+  Local Notation DemSol := (demands_at_solution F Dm D Dem rank N den rank_ok D_range Dem_range den_eq Dm_den).
 
-  (* some dependency of n has changed *)
-  Definition chg (gr : graph Val) (n : nat) : bool := existsb (fun d => changed (get gr d)) (D n).
-  (* newest-first log: nothing n depends on was updated after n *)
-  Definition Ordered (l : list nat) := forall l1 n l2, l = l1 ++ n :: l2 -> forall d, In d (D n) -> ~ In d l1.
+  (* some static dependency or demanded node of n has changed *)
+  Definition chg (gr : graph Val) (n : nat) : bool := chgd gr (Inp gr n).
+  (* newest-first log: nothing n reads was updated after n *)
+  Definition Ordered (gr : graph Val) (l : list nat) :=
+    forall l1 n l2, l = l1 ++ n :: l2 -> forall d, In d (Inp gr n) -> ~ In d l1.
   Definition LogOK (s : st Val) :=
-    NoDup (log s) /\ Ordered (log s) /\
+    NoDup (log s) /\ Ordered (g s) (log s) /\
     forall n, In n (log s) <-> (n < N /\ done (get (g s) n) = true /\ chg (g s) n = true).
 
-  Lemma chg_eq gr gr' m : (forall d, In d (D m) -> get gr' d = get gr d) -> chg gr' m = chg gr m.
-  Proof. intros H. unfold chg. apply existsb_ext_in. intros d Hd. rewrite H; auto. Qed.
+  Lemma chg_eq gr gr' m : (forall d, In d (Inp gr m) -> get gr' d = get gr d) -> chg gr' m = chg gr m.
+  Proof.
+    intros H. unfold chg.
+    rewrite (inp_eq Dm D gr gr' m) by (intros d Hd; apply H; apply in_inp_l; exact Hd).
+    apply chgd_eq. exact H.
+  Qed.
 
   Lemma dep_neq_self n : forall d, In d (D n) -> d <> n.
-  Proof. intros d Hd ->. apply rank_ok in Hd. lia. Qed.
+  Proof. intros d Hd ->. assert (rank n < rank n); [|lia]. apply rank_ok. apply in_or_app; auto. Qed.
+
+  (* the inputs of a done node are done: they are not node n if n is not done *)
+  Lemma done_inputs_neq gr m n : Inv gr -> m < N -> done (get gr m) = true -> done (get gr n) = false ->
+    forall d, In d (Inp gr m) -> d <> n.
+  Proof. intros [I1 _] Hm Dm0 Dn d Hd ->. destruct (I1 m Hm Dm0) as (_ & Ds & _). specialize (Ds n Hd). congruence. Qed.
 
   (* LogOK only looks at the log and at the done nodes *)
   Lemma LogOK_transfer a b :
     LogOK a -> log b = log a -> Inv (g a) ->
-    (forall m, m < N -> done (get (g a) m) = true -> get (g b) m = get (g a) m) ->
+    (forall m, done (get (g a) m) = true -> get (g b) m = get (g a) m) ->
     (forall m, m < N -> done (get (g b) m) = true -> done (get (g a) m) = true) ->
     LogOK b.
   Proof.
-    intros (ND & Or & Iff) EL [I1 _] Keep Back. unfold LogOK. rewrite EL. split; auto. split; auto.
-    intros n. rewrite Iff. split.
-    - intros (Hn & Dn & Cn). destruct (I1 n Hn Dn) as (_ & Ds & _).
-      split; auto. split; [rewrite Keep; auto|].
-      rewrite <- Cn. apply chg_eq. intros d Hd. apply Keep; auto. eapply D_range; eauto.
-    - intros (Hn & Dn & Cn). pose proof (Back n Hn Dn) as Dn'. destruct (I1 n Hn Dn') as (_ & Ds & _).
-      split; auto. split; auto.
-      rewrite <- Cn. symmetry. apply chg_eq. intros d Hd. apply Keep; auto. eapply D_range; eauto.
+    intros (ND & Or & Iff) EL Iv Keep Back. pose proof Iv as [I1 _]. unfold LogOK. rewrite EL.
+    assert (KeepIn : forall m, m < N -> done (get (g a) m) = true -> forall d, In d (Inp (g a) m) -> get (g b) d = get (g a) d).
+    { intros m Hm Dm0 d Hd. destruct (I1 m Hm Dm0) as (_ & Ds & _). apply Keep. apply Ds; exact Hd. }
+    split; auto. split.
+    - intros l1 n l2 El d Hd.
+      assert (Hin : In n (log a)) by (rewrite El; apply in_or_app; right; left; reflexivity).
+      apply Iff in Hin as (Hn & Dn & _).
+      rewrite (inp_eq Dm D (g a) (g b) n) in Hd by (intros d' Hd'; apply (KeepIn n Hn Dn); apply in_inp_l; exact Hd').
+      eapply Or; eauto.
+    - intros n. rewrite Iff. split.
+      + intros (Hn & Dn & Cn). split; auto. split; [rewrite Keep; auto|].
+        rewrite <- Cn. apply chg_eq. apply KeepIn; auto.
+      + intros (Hn & Dn & Cn). pose proof (Back n Hn Dn) as Dn'.
+        split; auto. split; auto.
+        rewrite <- Cn. symmetry. apply chg_eq. apply KeepIn; auto.
   Qed.
 
-  (* step A of update_node: marking an undone node pending keeps the invariants *)
-  Lemma mark_pending_get (s : st Val) n m :
-    n < length (g s) ->
-    get (g (mark s n true false)) m = if Nat.eqb n m then reflag (get (g s) n) true false else get (g s) m.
-  Proof.
-    intros L. rewrite mark_g. destruct (Nat.eqb_spec n m) as [->|Ne]; [rewrite get_set_same | rewrite get_set_other]; auto.
-  Qed.
-
-  Lemma I_mark_pending s n :
-    n < N -> Shape (g s) -> Inv (g s) -> done (get (g s) n) = false ->
-    Shape (g (mark s n true false)) /\ Inv (g (mark s n true false)).
-  Proof.
-    intros Hn [L S] Iv Dn_false.
-    assert (Lg : n < length (g s)) by lia.
-    assert (G1 : forall m, get (g (mark s n true false)) m = if Nat.eqb n m then reflag (get (g s) n) true false else get (g s) m)
-      by (intros; apply mark_pending_get; auto).
-    split.
-    { rewrite mark_g. apply shape_set; [split; auto| auto | simpl; apply S; auto | simpl; apply S; auto]. }
-    remember (mark s n true false) as s1 eqn:Hs1.
-    destruct Iv as [I1 I2]. split.
-    - intros m Hm Dm. rewrite G1 in Dm. destruct (Nat.eqb_spec n m) as [->|Ne]; [simpl in Dm; discriminate|].
-      destruct (I1 m Hm Dm) as (V & Ds & C). rewrite G1. apply Nat.eqb_neq in Ne; rewrite Ne. split; auto.
-      assert (Dsn : forall d, In d (D m) -> d <> n).
-      { intros d Hd ->. specialize (Ds n Hd). congruence. }
-      split.
-      + intros d Hd. rewrite G1. destruct (Nat.eqb_spec n d) as [->|]; [exfalso; eapply Dsn; eauto|auto].
-      + assert (Eq1 : forall l, (forall d, In d l -> d <> n) -> existsb (fun d => changed (get (g s1) d)) l = existsb (fun d => changed (get (g s) d)) l).
-        { induction l as [|d l IHl]; simpl; auto. intros Hl. rewrite G1. destruct (Nat.eqb_spec n d) as [->|]; [exfalso; eapply Hl; simpl; eauto|].
-          rewrite IHl; [reflexivity|]. intros; apply Hl; simpl; auto. }
-        assert (Eq2 : forall l, (forall d, In d l -> d <> n) -> map (fun d => fire (get (g s1) d)) l = map (fun d => fire (get (g s) d)) l).
-        { induction l as [|d l IHl]; simpl; auto. intros Hl. rewrite G1. destruct (Nat.eqb_spec n d) as [->|]; [exfalso; eapply Hl; simpl; eauto|].
-          rewrite IHl; [reflexivity|]. intros; apply Hl; simpl; auto. }
-        assert (Gm : get (g s1) m = get (g s) m) by (rewrite G1, Ne; auto).
-        unfold cons in *. intros NE. specialize (C NE).
-        rewrite (Eq1 (D m) Dsn), (Eq2 (D m) Dsn), Gm. exact C.
-    - intros m Hm Dm NE. rewrite G1 in *. destruct (Nat.eqb_spec n m) as [->|Ne]; simpl.
-      + apply (I2 m Hm Dn_false NE).
-      + apply (I2 m Hm Dm NE).
-  Qed.
-
-  (* step D of update_node: running the update (if some dependency changed) and marking the node done *)
-  Lemma LogOK_finish s2 n s3 s4 :
+  (* step D of update_node: running the update (if some input changed) and marking the node done *)
+  Lemma LogOK_finish s2 n ex s3 s4 :
     n < N -> Shape (g s2) -> Inv (g s2) -> LogOK s2 -> done (get (g s2) n) = false ->
-    s3 = (if chg (g s2) n then run_update F s2 n else s2) -> s4 = mark s3 n true true ->
+    ex = Exs (g s2) n -> (forall d, In d (Inp (g s2) n) -> d <> n) ->
+    s3 = (if existsb (fun d => changed (get (g s2) d)) (D n ++ ex) then run_update F s2 n ex else s2) -> s4 = mark s3 n true true ->
     LogOK s4.
   Proof.
-    intros Hn [L2 S2] [I1 _] (ND & Or & Iff) Dn Hs3 Hs4.
+    intros Hn [L2 S2] Iv (ND & Or & Iff) Dn Hex Nn Hs3 Hs4. pose proof Iv as [I1 _].
     assert (Lg : n < length (g s2)) by lia.
+    assert (Ec : existsb (fun d => changed (get (g s2) d)) (D n ++ ex) = chg (g s2) n).
+    { unfold chg, chgd, inp. rewrite <- Hex. reflexivity. }
+    rewrite Ec in Hs3.
     assert (G3 : forall m, m <> n -> get (g s3) m = get (g s2) m).
     { intros m Ne. rewrite Hs3. destruct (chg _ _); auto. unfold run_update; simpl. rewrite get_set_other; auto. }
     assert (L3 : length (g s3) = N).
@@ -152,29 +146,37 @@ Section Log.
     { rewrite Hs4. unfold mark; simpl. rewrite Hs3. destruct (chg _ _); reflexivity. }
     assert (Nin : ~ In n (log s2)).
     { intros H. apply Iff in H as (_ & Dn' & _). congruence. }
-    assert (DoneDeps : forall m, m < N -> done (get (g s2) m) = true -> forall d, In d (D m) -> d <> n).
-    { intros m Hm Dm d Hd ->. destruct (I1 m Hm Dm) as (_ & Ds & _). specialize (Ds n Hd). congruence. }
+    assert (DoneDeps : forall m, m < N -> done (get (g s2) m) = true -> forall d, In d (Inp (g s2) m) -> d <> n).
+    { intros m Hm Dm0. apply (done_inputs_neq (g s2) m n Iv Hm Dm0 Dn). }
     assert (C4n : chg (g s4) n = chg (g s2) n).
-    { apply chg_eq. intros d Hd. apply G4. apply (dep_neq_self n); auto. }
+    { apply chg_eq. intros d Hd. apply G4. apply Nn; exact Hd. }
     assert (C4m : forall m, m < N -> done (get (g s2) m) = true -> chg (g s4) m = chg (g s2) m).
-    { intros m Hm Dm. apply chg_eq. intros d Hd. apply G4. eapply DoneDeps; eauto. }
+    { intros m Hm Dm0. apply chg_eq. intros d Hd. apply G4. eapply DoneDeps; eauto. }
+    assert (In4m : forall m, m < N -> done (get (g s2) m) = true -> Inp (g s4) m = Inp (g s2) m).
+    { intros m Hm Dm0. apply inp_eq. intros d Hd. apply G4. apply (DoneDeps m Hm Dm0). apply in_inp_l; exact Hd. }
     assert (IffTail : forall m, m <> n -> (In m (log s2) <-> m < N /\ done (get (g s4) m) = true /\ chg (g s4) m = true)).
-    { intros m Ne. rewrite Iff, G4 by auto. split; intros (Hm & Dm & Cm); (split; [auto|split; [auto|]]).
+    { intros m Ne. rewrite Iff, G4 by auto. split; intros (Hm & Dm0 & Cm); (split; [auto|split; [auto|]]).
       - rewrite C4m; auto.
       - rewrite <- C4m; auto. }
+    assert (OrTail : forall l1 k l2, log s2 = l1 ++ k :: l2 -> forall d, In d (Inp (g s4) k) -> ~ In d l1 /\ d <> n).
+    { intros l1 k l2 El d Hd.
+      assert (Hk : In k (log s2)) by (rewrite El; apply in_or_app; right; left; reflexivity).
+      apply Iff in Hk as (Hk & Dk & _). rewrite (In4m k Hk Dk) in Hd.
+      split; [eapply Or; eauto | eapply DoneDeps; eauto]. }
     unfold LogOK. rewrite L4. destruct (chg (g s2) n) eqn:Cn.
     - split; [constructor; auto|]. split.
       + intros l1 k l2 El d Hd Hin. destruct l1 as [|y l1']; [contradiction|].
         simpl in El. injection El as <- El.
-        assert (Hk : In k (log s2)) by (rewrite El; apply in_or_app; right; left; reflexivity).
-        apply Iff in Hk as (Hk & Dk & _).
-        destruct Hin as [<-|Hin]; [eapply DoneDeps; eauto|]. eapply Or; eauto.
+        destruct (OrTail l1' k l2 El d Hd) as [A B].
+        destruct Hin as [<-|Hin]; [apply B; reflexivity | apply A; exact Hin].
       + intros m. destruct (Nat.eq_dec m n) as [->|Ne].
         * split; [intros _; split; auto; split; auto; congruence | intros _; left; reflexivity].
         * rewrite <- IffTail by auto. simpl. split; [intros [C|H]; [congruence|auto] | auto].
-    - split; auto. split; auto. intros m. destruct (Nat.eq_dec m n) as [->|Ne].
-      + split; [intros H; contradiction | intros (_ & _ & C); congruence].
-      + apply IffTail; auto.
+    - split; auto. split.
+      + intros l1 k l2 El d Hd. apply (OrTail l1 k l2 El d Hd).
+      + intros m. destruct (Nat.eq_dec m n) as [->|Ne].
+        * split; [intros H; contradiction | intros (_ & _ & C); congruence].
+        * apply IffTail; auto.
   Qed.
 
   (* pending nodes after the mark are n itself or were pending before *)
@@ -184,22 +186,22 @@ Section Log.
   Qed.
 
   Theorem update_node_log : forall fuel s n as_dep s',
-    n < N -> Shape (g s) -> Inv (g s) -> Pre (g s) n as_dep -> LogOK s ->
-    update_node F false fuel s n as_dep = Some s' -> LogOK s'.
+    n < N -> Shape (g s) -> Inv (g s) -> Src (g s) -> Pre (g s) n as_dep -> LogOK s ->
+    update_node F Dm false fuel s n as_dep = Some s' -> LogOK s'.
   Proof.
-    induction fuel as [|f IH]; intros s n as_dep s' Hn Sh Iv Pr LK E; [discriminate|].
+    induction fuel as [|f IH]; intros s n as_dep s' Hn Sh Iv Sr Pr LK E; [discriminate|].
     assert (PrT : Pre (g s) n true).
     { destruct as_dep; [exact Pr|]. simpl in *. intros p Hp Pp. exfalso. eapply Pr; eauto. }
     pose proof (Safe (S f) s n true) as Black.
     rewrite update_node_unfold in E, Black.
     destruct (visited (get (g s) n)) eqn:Vn.
     { injection E as <-. exact LK. }
-    destruct (un_body F false f s n) as [s4|] eqn:EB4; [|discriminate].
+    destruct (un_body F Dm false f s n) as [s4|] eqn:EB4; [|discriminate].
     (* the graph invariants of s4, from the safety theorem used on the as-dependency variant of this call *)
     assert (Black4 : Inv (g s4) /\ Ext (g s) (g s4)).
     { destruct (changed (get (g s4) n)); simpl in Black.
-      - destruct (Black _ Hn Sh Iv PrT eq_refl) as (A & B & _). simpl in A, B. auto.
-      - destruct (Black _ Hn Sh Iv PrT eq_refl) as (A & B & _). auto. }
+      - destruct (Black _ Hn Sh Iv Sr PrT eq_refl) as (A & B & _). simpl in A, B. auto.
+      - destruct (Black _ Hn Sh Iv Sr PrT eq_refl) as (A & B & _). auto. }
     clear Black. destruct Black4 as [Iv4 X04]. pose proof X04 as (S4 & _ & _ & _ & Q04 & _ & _).
     (* the log invariant of s4 *)
     assert (LK4 : LogOK s4).
@@ -210,63 +212,115 @@ Section Log.
       assert (Lg : n < length (g s)) by lia.
       assert (Dx : deps (get (g s) n) = D n) by (apply Sd; auto).
       rewrite Dx in EB4.
-      destruct (I_mark_pending s n Hn Sh Iv Dn_false) as [S1 Iv1].
+      destruct (I_mark_pending F Dm D Dts N s n Hn Sh Iv Dn_false) as [S1 Iv1].
       assert (P1 : forall p, pend (g (mark s n true false)) p -> p = n \/ pend (g s) p) by (intros p; apply pend_mark; auto).
       assert (Gn1 : get (g (mark s n true false)) n = reflag (get (g s) n) true false).
       { rewrite mark_pending_get, Nat.eqb_refl; auto. }
+      assert (Sr1 : Src (g (mark s n true false))).
+      { intros m Hm Dm0. rewrite mark_pending_get by auto. destruct (Nat.eqb_spec n m) as [->|Ne]; [simpl; apply Sr; auto | apply Sr; auto]. }
       assert (LK1 : LogOK (mark s n true false)).
       { apply (LogOK_transfer s); auto.
-        - intros m Hm Dm. rewrite mark_pending_get by auto. destruct (Nat.eqb_spec n m) as [->|]; [congruence|auto].
-        - intros m Hm Dm. rewrite mark_pending_get in Dm by auto. destruct (Nat.eqb_spec n m) as [->|]; [simpl in Dm; discriminate|auto]. }
+        - intros m Dm0. rewrite mark_pending_get by auto. destruct (Nat.eqb_spec n m) as [->|]; [congruence|auto].
+        - intros m Hm Dm0. rewrite mark_pending_get in Dm0 by auto. destruct (Nat.eqb_spec n m) as [->|]; [simpl in Dm0; discriminate|auto]. }
       remember (mark s n true false) as s1 eqn:Hs1.
-      match type of EB4 with match ?T with _ => _ end = _ => destruct T as [s2|] eqn:EB end; [|discriminate].
-      pose (P := fun a : st Val => Shape (g a) /\ Inv (g a) /\ Ext (g s1) (g a) /\ LogOK a).
-      pose (fB := fun (a : st Val) (d : nat) => if visited (get (g a) d) then Some a else update_node F false f a d true).
-      assert (PreB : forall a d, In d (D n) -> P a -> Pre (g a) d true).
-      { intros a d Hd (Sa & Ia & (_ & _ & _ & _ & Qa & _ & _) & _) p Hp Pp.
-        destruct (P1 p (Qa p Hp Pp)) as [->|Ps]; [apply rank_ok; auto|].
+      (* every node pending in a state reached from s1 outranks the nodes of rank below n *)
+      assert (HpB : forall a0, Ext (g s1) (g a0) -> forall p d, p < N -> pend (g a0) p -> rank d < rank n -> rank d < rank p).
+      { intros a0 (_ & _ & _ & _ & Q10 & _ & _) p d Hp Pp Rd.
+        destruct (P1 p (Q10 p Hp Pp)) as [->|Ps]; [exact Rd|].
         destruct as_dep; simpl in Pr.
-        - specialize (Pr p Hp Ps). apply rank_ok in Hd. lia.
+        - specialize (Pr p Hp Ps). lia.
         - exfalso. eapply Pr; eauto. }
-      assert (P2 : P s2).
-      { apply (fold_opt_inv P fB (D n) s1 s2); auto.
-        - split; [|split; [|split]]; auto. apply ext_refl; auto.
-        - intros a d a' Hd Pa Ea. unfold fB in Ea. destruct (visited (get (g a) d)) eqn:Vd.
-          + injection Ea as <-. exact Pa.
-          + pose proof Pa as (Sa & Ia & Xa & La).
-            destruct (Safe f a d true a' (D_range _ _ Hd) Sa Ia (PreB a d Hd Pa) Ea) as (Ia' & Xa' & _).
-            split; [apply Xa'|]. split; auto. split; [eapply ext_trans; eauto|].
-            apply (IH a d true a' (D_range _ _ Hd) Sa Ia (PreB a d Hd Pa) La Ea). }
-      destruct P2 as (S2 & Iv2 & X12 & LK2).
-      destruct X12 as (_ & _ & _ & K12 & _).
-      assert (Gn2 : get (g s2) n = reflag (get (g s) n) true false).
+      (* the log invariant along a visit of lower-ranked nodes *)
+      assert (VisitLog : forall l a0 r, (forall d, In d l -> rank d < rank n /\ d < N) ->
+                Shape (g a0) -> Inv (g a0) -> Ext (g s1) (g a0) -> LogOK a0 ->
+                visit_deps F Dm f l a0 = Some r -> LogOK r).
+      { intros l a0 r Hl Sa0 Ia0 X10 LK0 Er. unfold visit_deps in Er.
+        pose (P := fun a : st Val => Shape (g a) /\ Inv (g a) /\ Ext (g a0) (g a) /\ LogOK a).
+        pose (fB := fun (a : st Val) (d : nat) => if visited (get (g a) d) then Some a else update_node F Dm false f a d true).
+        assert (X1a : forall a, P a -> Ext (g s1) (g a)).
+        { intros a (_ & _ & Xa & _). eapply ext_trans; eauto. }
+        assert (PreB : forall a d, In d l -> P a -> Pre (g a) d true).
+        { intros a d Hd Pa p Hp Pp. apply (HpB a (X1a a Pa) p d Hp Pp). apply (Hl d Hd). }
+        assert (SrB : forall a, P a -> Src (g a)).
+        { intros a Pa. apply (SrcOK_ext D Dts N den (g s1)); auto. }
+        assert (P2 : P r).
+        { apply (fold_opt_inv P fB l a0 r); auto.
+          - split; [|split; [|split]]; auto. apply ext_refl; auto.
+          - intros a d a' Hd Pa Ea. unfold fB in Ea. destruct (visited (get (g a) d)) eqn:Vd.
+            + injection Ea as <-. exact Pa.
+            + pose proof Pa as (Sa & Ia & Xa & La).
+              destruct (Safe f a d true a' (proj2 (Hl d Hd)) Sa Ia (SrB a Pa) (PreB a d Hd Pa) Ea) as (Ia' & Xa' & _).
+              split; [apply Xa'|]. split; auto. split; [eapply ext_trans; eauto|].
+              apply (IH a d true a' (proj2 (Hl d Hd)) Sa Ia (SrB a Pa) (PreB a d Hd Pa) La Ea). }
+        apply P2. }
+      assert (VisitG : forall l a0 r, (forall d, In d l -> rank d < rank n /\ d < N) ->
+                Shape (g a0) -> Inv (g a0) -> Ext (g s1) (g a0) ->
+                visit_deps F Dm f l a0 = Some r ->
+                Shape (g r) /\ Inv (g r) /\ Ext (g a0) (g r) /\ forall d, In d l -> done (get (g r) d) = true).
+      { intros l a0 r Hl Sa0 Ia0 X10 Er.
+        destruct (visit_deps_safe F Dm D Dts rank N den Dts_range f l a0 r) as (A & B & C & _ & _ & E0); auto.
+        - exact (Safe f).
+        - intros d Hd. apply (Hl d Hd).
+        - intros p d Hp Pp Hd. apply (HpB a0 X10 p d Hp Pp). apply (Hl d Hd).
+        - apply (SrcOK_ext D Dts N den (g s1)); auto. }
+      change (fold_left (fun acc d => match acc with None => None | Some a =>
+                if visited (get (g a) d) then Some a else update_node F Dm false f a d true end) (D n) (Some s1))
+        with (visit_deps F Dm f (D n) s1) in EB4.
+      destruct (visit_deps F Dm f (D n) s1) as [s2|] eqn:EB; [|discriminate].
+      assert (HlD : forall d, In d (D n) -> rank d < rank n /\ d < N).
+      { intros d Hd. split; [apply rank_ok; apply in_or_app; auto | eapply D_range; eauto]. }
+      destruct (VisitG (D n) s1 s2 HlD S1 Iv1 (ext_refl D Dts N (g s1) S1) EB) as (S2 & Iv2 & X12 & DD).
+      pose proof (VisitLog (D n) s1 s2 HlD S1 Iv1 (ext_refl D Dts N (g s1) S1) LK1 EB) as LK2.
+      assert (Sr2 : Src (g s2)) by (apply (SrcOK_ext D Dts N den (g s1)); auto).
+      destruct (DemSol (g s2) n Iv2 Sr2 Hn DD) as [_ ExDem].
+      change (Dm n (fires_of (g s2) (D n))) with (Exs (g s2) n) in EB4.
+      remember (Exs (g s2) n) as ex eqn:Hex.
+      change (fold_left (fun acc d => match acc with None => None | Some a =>
+                if visited (get (g a) d) then Some a else update_node F Dm false f a d true end) ex (Some s2))
+        with (visit_deps F Dm f ex s2) in EB4.
+      destruct (visit_deps F Dm f ex s2) as [s2'|] eqn:EB'; [|discriminate].
+      assert (HlX : forall d, In d ex -> rank d < rank n /\ d < N).
+      { intros d Hd. apply ExDem in Hd. split; [apply rank_ok; apply in_or_app; auto | eapply Dem_range; eauto]. }
+      destruct (VisitG ex s2 s2' HlX S2 Iv2 X12 EB') as (S2' & Iv2' & X22' & _).
+      pose proof (VisitLog ex s2 s2' HlX S2 Iv2 X12 LK2 EB') as LK2'.
+      assert (X12' : Ext (g s1) (g s2')) by (eapply ext_trans; eauto).
+      pose proof X22' as (_ & _ & D22' & _).
+      assert (Ex2' : ex = Exs (g s2') n).
+      { rewrite Hex. symmetry. apply exs_of_eq. intros d Hd. apply D22'; [eapply D_range; eauto | apply DD; exact Hd]. }
+      destruct X12' as (_ & _ & _ & K12 & _).
+      assert (Gn2 : get (g s2') n = reflag (get (g s) n) true false).
       { rewrite K12; auto. split; rewrite Gn1; reflexivity. }
       injection EB4 as EB4.
-      eapply (LogOK_finish s2 n _ s4 Hn S2 Iv2 LK2); [rewrite Gn2; reflexivity | reflexivity | symmetry; exact EB4]. }
+      eapply (LogOK_finish s2' n ex _ s4 Hn S2' Iv2' LK2'); [rewrite Gn2; reflexivity | exact Ex2' | | reflexivity | symmetry; exact EB4].
+      intros d Hd ->. assert (R : rank n < rank n); [|lia]. unfold inp in Hd. rewrite <- Ex2' in Hd.
+      apply in_app_or in Hd as [Hd|Hd]; [apply (HlD n Hd) | apply (HlX n Hd)]. }
     destruct (changed (get (g s4) n)) eqn:Cn4.
     2:{ injection E as <-. exact LK4. }
     destruct as_dep; simpl in E.
     { injection E as <-. exact LK4. }
     assert (Dt4 : dependents (get (g s4) n) = Dts n) by (apply S4; auto).
     rewrite Dt4 in E.
+    assert (Sr4 : Src (g s4)) by (apply (SrcOK_ext D Dts N den (g s)); auto).
     pose (PE := fun a : st Val => Shape (g a) /\ Inv (g a) /\ Ext (g s4) (g a) /\ LogOK a).
     assert (PreE : forall a m, PE a -> Pre (g a) m false).
     { intros a m (_ & _ & (_ & _ & _ & _ & Qa & _ & _) & _) p Hp Pp. simpl in Pr. eapply Pr; eauto. }
+    assert (SrE : forall a, PE a -> Src (g a)).
+    { intros a (_ & _ & Xa & _). apply (SrcOK_ext D Dts N den (g s4)); auto. }
     assert (PE' : PE s').
-    { apply (fold_opt_inv PE (fun a m => update_node F false f a m false) (Dts n) s4 s'); auto.
+    { apply (fold_opt_inv PE (fun a m => update_node F Dm false f a m false) (Dts n) s4 s'); auto.
       - split; [|split; [|split]]; auto. apply ext_refl; auto.
       - intros a m a' Hm Pa Ea. pose proof Pa as (Sa & Ia & Xa & La).
-        destruct (Safe f a m false a' (Dts_range _ _ Hm) Sa Ia (PreE a m Pa) Ea) as (Ia' & Xa' & _).
+        destruct (Safe f a m false a' (Dts_range _ _ Hm) Sa Ia (SrE a Pa) (PreE a m Pa) Ea) as (Ia' & Xa' & _).
         split; [apply Xa'|]. split; auto. split; [eapply ext_trans; eauto|].
-        apply (IH a m false a' (Dts_range _ _ Hm) Sa Ia (PreE a m Pa) La Ea). }
+        apply (IH a m false a' (Dts_range _ _ Hm) Sa Ia (SrE a Pa) (PreE a m Pa) La Ea). }
     apply PE'.
   Qed.
 
   (* ---------------- the drain loop ---------------- *)
-  Definition Walkable (s : st Val) := Shape (g s) /\ Inv (g s) /\ NoPend N (g s).
+  Definition Walkable (s : st Val) := Shape (g s) /\ Inv (g s) /\ NoPend N (g s) /\ Src (g s).
 
   Lemma drain_log : forall rounds fuel s s',
-    Walkable s -> LogOK s -> drain F false rounds fuel s = Some s' -> LogOK s'.
+    Walkable s -> LogOK s -> drain F Dm false rounds fuel s = Some s' -> LogOK s'.
   Proof.
     induction rounds as [|r IHr]; intros fuel s s' Ws LK E; [discriminate|].
     cbn [drain] in E. destruct (queue s) as [|q0 qs] eqn:Q.
@@ -275,24 +329,26 @@ Section Log.
     match type of E with match ?T with _ => _ end = _ => destruct T as [s1|] eqn:EF end; [|discriminate].
     remember {| g := g s; queue := []; log := log s |} as s0 eqn:Hs0.
     assert (P1 : Walkable s1 /\ LogOK s1).
-    { apply (fold_opt_inv (fun a => Walkable a /\ LogOK a) (fun a x => update_node F false fuel a x false) (queue s) s0 s1); auto.
+    { apply (fold_opt_inv (fun a => Walkable a /\ LogOK a) (fun a x => update_node F Dm false fuel a x false) (queue s) s0 s1); auto.
       - rewrite Hs0. split; [exact Ws | exact LK].
-      - intros a x a' _ [(Sa & Ia & NPa) La] Ea.
+      - intros a x a' _ [(Sa & Ia & NPa & Sra) La] Ea.
         destruct (lt_dec x N) as [HxN|HxN].
-        2:{ pose proof (update_node_out_of_range _ _ _ _ _ _ _ _ _ Sa HxN Ea); subst a'. split; [split|]; auto. }
+        2:{ pose proof (update_node_out_of_range F Dm D Dts N _ _ _ _ _ Sa HxN Ea); subst a'. split; [split; [|split; [|split]]|]; auto. }
         assert (Pr : Pre (g a) x false) by (intros p Hp; apply NPa; auto).
-        destruct (Safe fuel a x false a' HxN Sa Ia Pr Ea) as (Ia' & Xa' & _).
-        split; [split; [apply Xa'|split; auto]|].
+        destruct (Safe fuel a x false a' HxN Sa Ia Sra Pr Ea) as (Ia' & Xa' & _).
+        split; [split; [apply Xa'|split; [auto|split]]|].
         + intros p Hp Pp. destruct Xa' as (_ & _ & _ & _ & Qp & _ & _). apply (NPa p Hp). apply Qp; auto.
-        + apply (update_node_log fuel a x false a' HxN Sa Ia Pr La Ea). }
+        + apply (SrcOK_ext D Dts N den (g a)); auto.
+        + apply (update_node_log fuel a x false a' HxN Sa Ia Sra Pr La Ea). }
     destruct P1 as [W1 LK1]. apply (IHr fuel s1 s'); auto.
   Qed.
 
-  (* oldest-first log (what EngineScript.estep reports): the dependencies of n that were updated at
-     all were updated before n *)
-  Definition Settled (lg : list nat) := forall l1 n l2, lg = l1 ++ n :: l2 -> forall d, In d (D n) -> ~ In d l2.
+  (* oldest-first log (what EngineScript.estep reports): the inputs of n that were updated at all were
+     updated before n *)
+  Definition Settled (gr : graph Val) (lg : list nat) :=
+    forall l1 n l2, lg = l1 ++ n :: l2 -> forall d, In d (Inp gr n) -> ~ In d l2.
 
-  Lemma Ordered_Settled l : Ordered l -> Settled (rev l).
+  Lemma Ordered_Settled gr l : Ordered gr l -> Settled gr (rev l).
   Proof.
     intros Or l1 n l2 E d Hd Hin.
     assert (El : l = rev l2 ++ n :: rev l1).
@@ -302,40 +358,53 @@ Section Log.
 
   Hypothesis Dts_complete : forall n d, n < N -> In d (D n) -> In n (Dts d).
 
-  (* (3) the update closure of a node runs at most once, exactly when a dependency changed, and
-     only after the updates of its dependencies *)
+  (* (3) the update closure of a node runs at most once, exactly when a static dependency or a demanded
+     node changed, and only after the updates of its static dependencies and of the nodes it demands *)
   Theorem drain_log_spec rounds fuel s s' :
-    Good F D Dts N s -> log s = [] -> (forall n, n < N -> done (get (g s) n) = false) ->
-    drain F false rounds fuel s = Some s' ->
+    Good F Dm D Dts N den s -> log s = [] -> (forall n, n < N -> done (get (g s) n) = false) ->
+    drain F Dm false rounds fuel s = Some s' ->
     NoDup (log s') /\
     (forall n, In n (log s') <->
-               (n < N /\ D n <> [] /\ exists d, In d (D n) /\ changed (get (g s') d) = true)) /\
-    Ordered (log s') /\ Settled (rev (log s')).
+               (n < N /\ D n <> [] /\ exists d, In d (Inp (g s') n) /\ changed (get (g s') d) = true)) /\
+    Ordered (g s') (log s') /\ Settled (g s') (rev (log s')).
   Proof.
     intros Gd L0 ND E.
     assert (LK0 : LogOK s).
     { unfold LogOK. rewrite L0. split; [constructor|]. split.
       - intros l1 n l2 El. destruct l1; discriminate.
       - intros n. split; [intros []|]. intros (Hn & Dn & _). rewrite ND in Dn; auto. discriminate. }
-    assert (Ws : Walkable s) by (destruct Gd as (A & B & C & _); split; auto).
+    assert (Ws : Walkable s) by (destruct Gd as (A & B & C & _ & _ & E0); split; auto).
     pose proof (drain_log rounds fuel s s' Ws LK0 E) as (NDl & Or & Iff).
-    destruct (drain_good F D Dts rank N rank_ok D_range Dts_range rounds fuel s s' Gd E) as ((S' & (I1 & I2) & NP & C & SQ) & Q' & _).
+    destruct (drain_good F Dm D Dem Dts rank N den rank_ok D_range Dem_range Dts_range den_eq Dm_den Dm_quiet rounds fuel s s' Gd E)
+      as (Gd' & Q' & _).
+    destruct Gd' as (S' & (I1 & I2) & NP & C & SQ & Sr').
     split; auto. split; [|split; [exact Or | apply Ordered_Settled; exact Or]].
     intros n. rewrite Iff. split.
-    - intros (Hn & Dn & Cn). split; auto. unfold chg in Cn. apply existsb_exists in Cn as (d & Hd & Cd).
-      split; [intros Z; rewrite Z in Hd; contradiction | exists d; auto].
-    - intros (Hn & _ & d & Hd & Cd). split; auto.
-      assert (Cn : chg (g s') n = true) by (unfold chg; apply existsb_exists; exists d; auto).
+    - intros (Hn & Dn & Cn). split; auto. unfold chg, chgd in Cn. apply existsb_exists in Cn as (d & Hd & Cd).
+      split; [|exists d; auto].
+      (* a source has no input *)
+      intros Z. unfold inp, exs_of, ins_of in Hd. rewrite Z in Hd. rewrite Dm_quiet in Hd by reflexivity. destruct Hd.
+    - intros (Hn & NE & d & Hd & Cd). split; auto.
+      assert (Cn : chg (g s') n = true) by (unfold chg, chgd; apply existsb_exists; exists d; auto).
       split; auto.
       destruct (done (get (g s') n)) eqn:Dn; auto. exfalso.
-      pose proof (D_range _ _ Hd) as Hdn.
-      assert (Vn : visited (get (g s') n) = false).
-      { destruct (visited (get (g s') n)) eqn:Vn; auto. exfalso. apply (NP n Hn). split; auto. }
-      destruct (done (get (g s') d)) eqn:Dd.
-      + assert (Hm : In n (Dts d)) by (apply Dts_complete; auto).
-        destruct (C d Hdn Dd Cd n Hm) as [V|Qn]; [congruence | rewrite Q' in Qn; inversion Qn].
-      + destruct (visited (get (g s') d)) eqn:Vd; [apply (NP d Hdn); split; auto|].
-        pose proof (SQ d Hdn Cd Vd) as Qd. rewrite Q' in Qd. inversion Qd.
+      (* not done and some input changed: impossible, by the argument of good_empty_fix *)
+      assert (NoCh : forall d, In d (D n) -> changed (get (g s') d) = false).
+      { intros d0 Hd0. destruct (changed (get (g s') d0)) eqn:Cd0; auto. exfalso.
+        pose proof (D_range _ _ Hd0) as Hdn.
+        assert (Vn : visited (get (g s') n) = false).
+        { destruct (visited (get (g s') n)) eqn:Vn; auto. exfalso. apply (NP n Hn). split; auto. }
+        destruct (done (get (g s') d0)) eqn:Dd.
+        - assert (Hm : In n (Dts d0)) by (apply Dts_complete; auto).
+          destruct (C d0 Hdn Dd Cd0 n Hm) as [V|Qn]; [congruence | rewrite Q' in Qn; inversion Qn].
+        - destruct (visited (get (g s') d0)) eqn:Vd; [apply (NP d0 Hdn); split; auto|].
+          pose proof (SQ d0 Hdn Cd0 Vd) as Qd. rewrite Q' in Qd. inversion Qd. }
+      assert (Quiet : existsb is_some (ins_of D (g s') n) = false).
+      { unfold ins_of, fires_of. rewrite existsb_map. destruct (existsb _ (D n)) eqn:Ex; auto. exfalso.
+        apply existsb_exists in Ex as (d0 & Hd0 & Fd).
+        rewrite <- (changed_is_fired F Dm D N den (g s') (conj I1 I2) Sr' d0 (D_range _ _ Hd0)) in Fd.
+        rewrite NoCh in Fd by exact Hd0. discriminate. }
+      unfold inp, exs_of in Hd. rewrite (Dm_quiet n _ Quiet), app_nil_r in Hd. rewrite NoCh in Cd by exact Hd. discriminate.
   Qed.
 End Log.
 
